@@ -518,13 +518,12 @@ pub mod value {
                     write!(f, "\"")
                 }
                 Vec(vs) => {
-                    if let Some(Nat8(_)) = vs.first() {
+                    if !vs.is_empty() && vs.iter().all(|v| matches!(v, Nat8(_))) {
                         write!(f, "blob \"")?;
                         for v in vs.iter() {
-                            match v {
-                                // only here for completeness. The deserializer should generate IDLValue::Blob instead.
-                                Nat8(v) => write!(f, "{}", &pp_char(*v))?,
-                                _ => unreachable!(),
+                            // only here for completeness. The deserializer should generate IDLValue::Blob instead.
+                            if let Nat8(v) = v {
+                                write!(f, "{}", &pp_char(*v))?;
                             }
                         }
                         write!(f, "\"")
